@@ -13,6 +13,11 @@ search : oracle independent of the model: direct boolean selection on the full
          observable`, fresh twin object, global restore, `set_window(window())`,
          objects nested on the library's own arrays, power-of-two rescaled twins,
          shuffled anomalies, selected phases / months incl. wrapping and error cases
+round 5: `phase_mean()` / `anomaly()` as executed in IEEE binary64 / binary32 (`flt`, `flt32`: the
+         model rounds every operation; arbitrary doubles / float32 / int64 observables, bit-for-bit
+         comparison, other orders of summation accepted within the bound proved for every order);
+         `set_window` with Python-float bounds that are not float32 numbers (`W32=`: comparisons
+         in float32 as NumPy 2 carries them out; judged per axis, no rounding mode prescribed)
 round 4: `shuffled_anomaly()` on the recorded raw draw stream (the model runs NumPy's masked
          rejection sampling and Fisher-Yates itself; matrix and number of draws compared exactly),
          proved rounding bounds instead of tolerances in the oracle, masked / packed NetCDF
@@ -1268,8 +1273,14 @@ def run(ctx):
                 "nested constructor / cache_clear and queries); distinct = distinct canonical "
                 "request; non-trivial = at least one window change that keeps some but not all samples")
     ctx.trusted = common.DEFAULT_TRUSTED + [
-        "NumPy boolean-mask / strided indexing, ndarray.min/max/mean, float32 comparison of "
-        "float32-exact values: modelled as their mathematical operations on rationals",
+        "NumPy boolean-mask / strided indexing, ndarray.min/max: modelled as their mathematical "
+        "operations on rationals; ndarray.mean / the subtraction of the mean: modelled exactly on "
+        "the history streams and, round 5, as executed in IEEE binary64 / binary32 (every operation "
+        "rounded to nearest-even, sum over axis 0 row after row; compared bit for bit with the real "
+        "results on arbitrary doubles, another order of summation being accepted within the bound "
+        "proved for every order); the float32 comparison of set_window: the exact comparison on "
+        "float32 numbers (theorem float32_comparison_exact), modelled with the conversion of "
+        "Python-float bounds to float32 (applyWindow32) on the float32-bounds stream",
         "functools.lru_cache keyed by (id, _mut_window): modelled as an association list with "
         "arbitrary eviction",
         "numpy.random.shuffle = masked rejection sampling (random_interval) + Fisher-Yates on the raw "
@@ -1335,6 +1346,8 @@ def run(ctx):
                 ctx.count("outcome:" + piece)
 
     float_division(ctx, rng)
+    float_execution(ctx, rng, quick)
+    float32_bounds(ctx, rng, quick)
 
     model = common.driver(ctx.pid, reqs)
     bad = [i for i in range(len(reqs))
@@ -1409,6 +1422,239 @@ def float_division(ctx, rng):
                    f"evaluated by CPython ({len(pairs)} pairs, {beyond} beyond 2^53, "
                    f"{differ} where it is not T // c)", "correspondence", not bad, "\n".join(bad[:5]))
     ctx.count("float-division:pairs", len(pairs))
+
+
+def float_execution(ctx, rng, quick):
+    """Round 5: `phase_mean()` / `anomaly()` of float64 / float32 / int64 observables with
+    *arbitrary* values (not dyadic toy values) against the Lean model of the computation as
+    executed in IEEE arithmetic (`flPhaseMeanLoop`, `flAnomalyOf` with `ops64` / `ops32`: every
+    + / - / division rounded to nearest-even, the sum over axis 0 row after row; float32: the
+    division in double, rounded to binary32 again).  Theorems `ieee_phase_mean_error`,
+    `ieee_anomaly_add_phase_mean`, `ieee32_...` are about exactly these models.  The property
+    does not fix the order of summation, and NumPy uses another one (pairwise, eight
+    accumulators) for phases with 8 or more samples when the reduced axis is contiguous, so an
+    entry must either equal the model bit for bit or -- any other order -- lie within the bound
+    proved for every order (`float_phase_mean_error`, `float_addback_error`), evaluated in exact
+    arithmetic.  Shapes and NaN rows must agree exactly."""
+    from pyunicorn.core import GeoGrid
+    from pyunicorn.climate import ClimateData
+    reqs, impl, meta = [], [], []
+    for _ in range(160 if quick else 1600):
+        T = rng.choice([1, 2, 3, 5, 7, 8, 9, 12, 16, 17, 24, 33, 40])
+        N = rng.choice([1, 1, 2, 3, 5])
+        c = rng.choice([1, 2, 3, 4, 5, 7, 12, 13])
+        dtype = rng.choice(["float64", "float64", "float32", "int64"])
+        kind = rng.choice(["gauss", "gauss", "wide", "cancel", "dyadic", "neg"])
+
+        def val():
+            if dtype == "int64":
+                return rng.choice([rng.randrange(-1000, 1000), rng.randrange(-2 ** 40, 2 ** 40),
+                                   rng.randrange(2 ** 52, 2 ** 53)])
+            if kind == "gauss":
+                return rng.gauss(0, 1)
+            if kind == "wide":
+                return rng.gauss(0, 1) * 10.0 ** rng.choice([-30, -3, 0, 3, 30])
+            if kind == "cancel":
+                big = 1e16 if dtype == "float64" else 1e7
+                return rng.choice([big, -big, 1.0, -1.0, 3.14]) + rng.random()
+            if kind == "neg":
+                return -abs(rng.gauss(5, 1))
+            return rng.randrange(-64, 64) / 8.0
+        obs = np.array([[val() for _ in range(N)] for _ in range(T)], dtype=dtype)
+        layout = rng.choice(["C", "F", "strided"])
+        grid = GeoGrid(np.arange(T, dtype=float), np.arange(N, dtype=float),
+                       np.arange(N, dtype=float), 2)
+        w = None
+        if T > 2 and rng.random() < 0.4:
+            w = {"time_min": 1., "time_max": float(T - 1), "lat_min": 0.,
+                 "lat_max": float(max(N - 2, 0)), "lon_min": 0., "lon_max": float(N)}
+        with quiet():
+            d = ClimateData(lay_out(obs, layout), grid, c, window=w, silence_level=2)
+            O = np.asarray(d.observable())
+            pm, an = np.asarray(d.phase_mean()), np.asarray(d.anomaly())
+        if O.dtype != np.dtype(dtype) or not np.all(np.isfinite(O.astype(float))):
+            ctx.count("float-execution:skipped(dtype changed or overflow)")
+            continue
+        # int64 observables: NumPy's mean converts the samples to double first (exact below 2^53)
+        FO = [[Fraction(int(x)) if dtype == "int64" else fr(x) for x in row] for row in O]
+        reqs.append(("flt32" if dtype == "float32" else "flt") + f" {c} "
+                    + ";".join(enc_vec(r) for r in FO))
+        impl.append((FO, O.shape, pm, an, dtype))
+        meta.append(f"T={O.shape[0]} N={O.shape[1]} c={c} dtype={dtype} values={kind} "
+                    f"layout={layout} window={w}")
+        ctx.count("float-execution:dtype:" + dtype)
+        ctx.count("float-execution:values:" + ("integers" if dtype == "int64" else kind))
+    model = common.driver(ctx.pid, reqs)
+    bad, n_exact, n_other, n_entries = [], 0, 0, 0
+    for req, (FO, shape, pm, an, dtype), m, what in zip(reqs, impl, model, meta):
+        c = int(req.split()[1])
+        if dtype == "float32":
+            u, ud = Fraction(1, 2 ** 24), Fraction(1, 2 ** 24) + Fraction(1, 2 ** 52)
+        else:
+            u = ud = Fraction(1, 2 ** 53)
+        try:
+            mpm, man = m.split("|")
+            if (mpm.split(":")[0], man.split(":")[0]) != (f"{pm.shape[0]}x{pm.shape[1]}",
+                                                          f"{an.shape[0]}x{an.shape[1]}"):
+                bad.append(f"{what}: shapes model {mpm.split(':')[0]} / {man.split(':')[0]}, "
+                           f"implementation {pm.shape} / {an.shape}")
+                continue
+            mrows = mpm.split(":", 1)[1].split(";")
+            arows = [[Fraction(x) for x in r.split(",")] for r in man.split(":", 1)[1].split(";")]
+        except (ValueError, IndexError):
+            bad.append(f"{what}: unreadable model answer {m[:120]}")
+            continue
+        for i in range(c):
+            nan_impl = bool(np.all(np.isnan(pm[i])))
+            if (mrows[i] == "nan") != nan_impl:
+                bad.append(f"{what}: NaN row {i}: model {mrows[i] == 'nan'}, implementation {nan_impl}")
+                continue
+            if nan_impl:
+                continue
+            mrow = [Fraction(x) for x in mrows[i].split(",")]
+            k = len(range(i, len(FO), c))
+            for j in range(shape[1]):
+                n_entries += 1
+                v = fr(pm[i, j])
+                if v == mrow[j]:
+                    n_exact += 1
+                    continue
+                n_other += 1
+                ctx.count("float-execution:other-order:" + ("k<8" if k < 8 else "k>=8"))
+                col = [FO[t][j] for t in range(i, len(FO), c)]
+                bound = ((1 + u) ** (k - 1) * (1 + ud) - 1) * sum(abs(x) for x in col) / k
+                if abs(v - sum(col) / k) > bound:
+                    bad.append(f"{what}: phase_mean()[{i},{j}] = {float(v)!r} is neither the IEEE "
+                               f"model's {float(mrow[j])!r} nor within the proved bound {float(bound):.3g} "
+                               f"of the exact mean {float(sum(col) / k)!r}")
+        for t in range(shape[0]):
+            for j in range(shape[1]):
+                n_entries += 1
+                a = fr(an[t, j])
+                if a == arows[t][j]:
+                    n_exact += 1
+                    continue
+                n_other += 1
+                mh = fr(pm[t % c, j])
+                if abs(a + mh - FO[t][j]) > u * abs(FO[t][j] - mh):
+                    bad.append(f"{what}: anomaly()[{t},{j}] = {float(a)!r} is neither the IEEE "
+                               f"model's {float(arows[t][j])!r} nor within one rounding of "
+                               f"observable - phase_mean")
+    ctx.obligation(
+        f"correspondence: phase_mean() / anomaly() of float64 / float32 / int64 observables == the "
+        f"IEEE binary64 / binary32 model as executed ({len(reqs)} objects, {n_entries} entries: "
+        f"{n_exact} bit for bit, {n_other} summed in another order and within the bound proved for "
+        f"every order)",
+        "correspondence", not bad, "\n".join(bad[:5]))
+    ctx.count("float-execution:entries", n_entries)
+    ctx.count("float-execution:bit-exact", n_exact)
+    ctx.count("float-execution:other-order", n_other)
+
+
+def float32_bounds(ctx, rng, quick):
+    """Round 5: window bounds given as Python floats that are *not* float32 numbers.  NumPy 2
+    converts such a bound to the grid's float32 and compares in float32; the model does the same
+    (`applyWindow32`: `rn32` of the bounds, coinciding-bounds tests on the unrounded floats).
+    `float32_comparison_exact` proves that on float32 numbers this is the exact comparison (all other
+    streams); `float32_bound_rounding_changes_selection` shows the difference otherwise.  These
+    windows are outside the stated claim (interpretation decision), so this stream is a
+    correspondence only and prescribes no rounding mode: per axis, every sample on which the
+    float32 model and the exact model agree must be treated that way by the implementation; a
+    sample on which they differ may go either way (a library comparing one axis or one bound in
+    double still passes).  What the implementation does is counted."""
+    from pyunicorn.core import GeoGrid
+    from pyunicorn.climate import ClimateData
+    reqs32, reqsx, impl, meta = [], [], [], []
+    for _ in range(120 if quick else 1200):
+        T, N, c = rng.randrange(3, 10), rng.randrange(2, 6), rng.choice([1, 2, 3])
+        scale = rng.choice([1, 1, 2 ** 10, 2 ** -6])
+        time = sorted(rng.sample(range(-40, 80), T))
+        time = [t / 8 * scale for t in time]
+        lat = [rng.randrange(-80, 80) / 8 for _ in range(N)]
+        lon = [rng.randrange(0, 160) / 8 for _ in range(N)]
+        obs = [[float(t * N + j) for j in range(N)] for t in range(T)]   # entry = identity of (t, j)
+
+        def near(xs):
+            x = rng.choice(xs)
+            r = rng.random()
+            if r < 0.25:
+                return x
+            if r < 0.7:       # closer to the sample than half a float32 ulp: rounds onto it
+                return x + rng.choice([-1, 1]) * max(abs(x), 2.0 ** -10) * 2.0 ** -rng.choice([26, 30, 40])
+            if r < 0.85:      # clearly off the sample
+                return x + rng.choice([-1, 1]) * max(abs(x), 1.0) * 2.0 ** -rng.choice([10, 20])
+            return x + rng.choice([0.1, -0.1, 1 / 3])
+        b = sorted([near(time), near(time)]) + sorted([near(lat), near(lat)]) \
+            + sorted([near(lon), near(lon)])
+        r = rng.random()
+        if r < 0.3:
+            b[2] = b[3] = 0.0           # whole spatial extent: the time axis decides
+        elif r < 0.4:
+            b[0] = b[1]                 # whole time axis
+        w = dict(zip(WKEYS, (float(x) for x in b)))
+        tok = ",".join(enc_num(w[k]) for k in WKEYS)
+        head = ["run", str(c), "0", "G", enc_vec(time), enc_vec(lat), enc_vec(lon),
+                ";".join(enc_vec(row) for row in obs)]
+        grid = GeoGrid(np.array(time), np.array(lat), np.array(lon), 2)
+        with quiet():
+            d = ClimateData(np.array(obs), grid, c, silence_level=2)
+            try:
+                d.set_window(w)
+                out = "ok|" + enc_mat(d.observable())
+            except ValueError:
+                out = "ok|raise:ValueError"
+            else:
+                g = d.grid.grid()
+                out += "|" + "~".join(enc_vec(g[k]) for k in ("time", "lat", "lon"))
+                out += "|" + ",".join(str(int(x)) for x in d.__cache_state__())
+        reqs32.append(" ".join(head + ["W32=" + tok, "o", "g", "cs"]))
+        reqsx.append(" ".join(head + ["W=" + tok, "o", "g", "cs"]))
+        impl.append(out)
+        meta.append((N, f"time={time} lat={lat} lon={lon} window={w}"))
+    m32 = common.driver(ctx.pid, reqs32)
+    mx = common.driver(ctx.pid, reqsx)
+
+    def norm(ans):
+        """model answer `ok|ok|o|g|cs` / `ok|raise:ValueError|...` -> the implementation's format"""
+        p = ans.split("|")
+        return "ok|raise:ValueError" if len(p) > 1 and p[1].startswith("raise") else "|".join([p[0]] + p[2:])
+
+    def axes(ans, N):
+        p = ans.split("|")
+        if len(p) < 2 or p[1].startswith("raise"):
+            return None
+        body = p[1].split(":", 1)[1]
+        ids = [[int(Fraction(x)) for x in row.split(",")] for row in body.split(";")]
+        ts, ns = [row[0] // N for row in ids], [x % N for x in ids[0]]
+        if ids != [[t * N + j for j in ns] for t in ts]:
+            return "not-a-product"
+        return set(ts), set(ns), ts, ns
+    bad, cnt = [], {"both": 0, "float32": 0, "exact": 0, "mixed": 0, "not-judged": 0}
+    for a, b, i, (N, what) in zip(m32, mx, impl, meta):
+        a, b = norm(a), norm(b)
+        if i == a or i == b:
+            cnt["both" if a == b else ("float32" if i == a else "exact")] += 1
+            continue
+        A, B, I = axes(a, N), axes(b, N), axes(i, N)
+        if I == "not-a-product":
+            bad.append(f"{what[:300]} :: observable() is not rows x columns of the full data: {i[:200]}")
+        elif A is None or B is None or I is None:
+            if I is None and A is not None and B is not None:
+                bad.append(f"{what[:300]} :: ValueError, but both models select samples")
+            else:
+                cnt["not-judged"] += 1
+        elif all((A[k] & B[k]) <= I[k] <= (A[k] | B[k]) for k in (0, 1)) \
+                and I[2] == sorted(I[2]) and I[3] == sorted(I[3]):
+            cnt["mixed"] += 1
+        else:
+            bad.append(f"{what[:300]} :: float32 model={a[:160]} exact model={b[:160]} impl={i[:160]}")
+    ctx.obligation(
+        f"correspondence: set_window with Python-float bounds that are not float32 numbers "
+        f"({len(impl)} windows: {cnt['both']} where rounding the bounds does not matter, {cnt['float32']} "
+        f"as the float32 model, {cnt['exact']} as the exact model, {cnt['mixed']} in between)",
+        "correspondence", not bad, "\n".join(bad[:5]))
+    for k, v in cnt.items():
+        ctx.count("float32-bounds:" + k, v)
 
 
 class _Probe:
